@@ -17,8 +17,11 @@ import xml.etree.ElementTree as ET
 
 def main() -> int:
     jobs = "14"
+    repo = "/repo"
     if "--jobs" in sys.argv:
         jobs = sys.argv[sys.argv.index("--jobs") + 1]
+    if "--repo" in sys.argv:   # a scratch worktree (used to confirm seeded changes)
+        repo = sys.argv[sys.argv.index("--repo") + 1]
     base = json.load(open("/root/.vp/BASELINE.json"))
     env = dict(os.environ)
     env.pop("FLOX_VERIF", None)
@@ -29,7 +32,8 @@ def main() -> int:
             "/venv/bin/python", "-m", "pytest", "-q", "-p", "no:cacheprovider", "--timeout=900",
             "--continue-on-collection-errors", f"--junitxml={junit}", "-n", jobs,
         ]
-        proc = subprocess.run(cmd, cwd="/repo", env=env, stdout=subprocess.PIPE, stderr=subprocess.STDOUT, text=True)
+        env["PYTHONPATH"] = repo
+        proc = subprocess.run(cmd, cwd=repo, env=env, stdout=subprocess.PIPE, stderr=subprocess.STDOUT, text=True)
         tail = "\n".join(proc.stdout.splitlines()[-5:])
         if not os.path.exists(junit):
             print(proc.stdout[-4000:])
